@@ -19,6 +19,7 @@ def enteredNames (l : List Ev) : List Str := l.filterMap Ev.enteredName
 def Ev.isReply : Ev → Bool
   | .lambdaSucceeded _ => true
   | .lambdaFailed _ _ => true
+  | .lambdaTimedOut => true
   | _ => false
 
 def Ev.isScheduled : Ev → Bool
@@ -61,42 +62,71 @@ theorem bracketed_spec (l pre post : List Ev) (e : Ev) (h : bracketed l = true) 
     simp only [List.cons_append, bracketed, Bool.and_eq_true] at h
     exact ih h.2
 
-/-- `st'` is `st` after some more events (most recent first): none of them opens / closes the execution,
-and every reply event among them has its `LambdaFunctionScheduled` right before it -/
-def Grows (st st' : St) : Prop :=
-  ∃ evs, st'.log = evs ++ st.log ∧ st'.trace = enteredNames evs ++ st.trace ∧ (∀ e ∈ evs, e.isExec = false) ∧
-    bracketed evs = true
+theorem le_rmax_left (a b : Rat) : a ≤ rmax a b := by
+  unfold rmax; split
+  · assumption
+  · exact Rat.le_refl
 
-theorem Grows.refl (st : St) : Grows st st := ⟨[], rfl, rfl, by simp, rfl⟩
+theorem le_rmax_right (a b : Rat) : b ≤ rmax a b := by
+  unfold rmax; split
+  · exact Rat.le_refl
+  · rename_i h; exact Rat.le_of_lt (Rat.not_le.mp h)
+
+/-- `st'` is `st` after some more events (most recent first): none of them opens / closes the execution,
+every reply event among them has its `LambdaFunctionScheduled` right before it; each has its instant, none
+earlier than the clock of `st`; and the clock has not gone back -/
+def Grows (st st' : St) : Prop :=
+  ∃ evs ts, st'.log = evs ++ st.log ∧ st'.trace = enteredNames evs ++ st.trace ∧ (∀ e ∈ evs, e.isExec = false) ∧
+    bracketed evs = true ∧ st'.times = ts ++ st.times ∧ ts.length = evs.length ∧ (∀ t ∈ ts, st.clock ≤ t) ∧
+    st.clock ≤ st'.clock
+
+theorem Grows.refl (st : St) : Grows st st := ⟨[], [], rfl, rfl, by simp, rfl, rfl, rfl, by simp, Rat.le_refl⟩
+
+theorem Grows.clock_le {a b : St} (h : Grows a b) : a.clock ≤ b.clock := by
+  obtain ⟨_, _, _, _, _, _, _, _, _, hc⟩ := h; exact hc
 
 theorem Grows.trans {a b c : St} (h1 : Grows a b) (h2 : Grows b c) : Grows a c := by
-  obtain ⟨e1, l1, t1, x1, b1⟩ := h1
-  obtain ⟨e2, l2, t2, x2, b2⟩ := h2
-  refine ⟨e2 ++ e1, ?_, ?_, ?_, bracketed_append _ _ b2 b1⟩
+  obtain ⟨e1, s1, l1, t1, x1, b1, m1, n1, g1, c1⟩ := h1
+  obtain ⟨e2, s2, l2, t2, x2, b2, m2, n2, g2, c2⟩ := h2
+  refine ⟨e2 ++ e1, s2 ++ s1, ?_, ?_, ?_, bracketed_append _ _ b2 b1, ?_, ?_, ?_, Rat.le_trans c1 c2⟩
   · rw [l2, l1, List.append_assoc]
   · rw [t2, t1, enteredNames, enteredNames, enteredNames, List.filterMap_append, List.append_assoc]
   · intro e he
     rcases List.mem_append.mp he with h | h
     · exact x2 e h
     · exact x1 e h
+  · rw [m2, m1, List.append_assoc]
+  · simp [List.length_append, n1, n2]
+  · intro t ht
+    rcases List.mem_append.mp ht with h | h
+    · exact Rat.le_trans c1 (g2 t h)
+    · exact g1 t h
 
-/-- changes to the other fields -/
-theorem grows_same (st st' : St) (hl : st'.log = st.log) (ht : st'.trace = st.trace) : Grows st st' :=
-  ⟨[], by simpa using hl, by simpa [enteredNames] using ht, by simp, rfl⟩
+/-- changes to the other fields, the clock moving forward -/
+theorem grows_same (st st' : St) (hl : st'.log = st.log) (ht : st'.trace = st.trace) (hm : st'.times = st.times)
+    (hc : st.clock ≤ st'.clock) : Grows st st' :=
+  ⟨[], [], by simpa using hl, by simpa [enteredNames] using ht, by simp, rfl, by simpa using hm, rfl, by simp, hc⟩
 
 theorem grows_enter (st : St) (ty name : Str) (data : Json) (r : Nat) : Grows st (st.enter ty name data r) := by
   unfold St.enter
   split
-  · exact ⟨[.entered ty name data], rfl, rfl, by simp [Ev.isExec], rfl⟩
+  · exact ⟨[.entered ty name data], [st.clock], rfl, rfl, by simp [Ev.isExec], rfl, rfl, rfl,
+      by simp [Rat.le_refl], Rat.le_refl⟩
   · exact Grows.refl _
 
 theorem grows_exit (st : St) (ty name : Str) (data : Json) : Grows st (st.exit ty name data) :=
-  ⟨[.exited ty name data], rfl, rfl, by simp [Ev.isExec], rfl⟩
+  ⟨[.exited ty name data], [st.clock], rfl, rfl, by simp [Ev.isExec], rfl, rfl, rfl, by simp [Rat.le_refl], Rat.le_refl⟩
 
 /-- one event that is neither a state entry, nor an execution event, nor a reply -/
 theorem grows_push (st : St) (e : Ev) (hn : e.enteredName = none) (hx : e.isExec = false) (hr : e.isReply = false) :
     Grows st (st.push e) :=
-  ⟨[e], rfl, by simp [enteredNames, St.push, hn], by simpa using hx, by simp [bracketed, hr]⟩
+  ⟨[e], [st.clock], rfl, by simp [enteredNames, St.push, hn], by simpa using hx, by simp [bracketed, hr], rfl, rfl,
+   by simp [Rat.le_refl], Rat.le_refl⟩
+
+theorem grows_waitUntil (st : St) (t : Rat) : Grows st (st.waitUntil t) :=
+  grows_same _ _ rfl rfl rfl (le_rmax_left _ _)
+
+theorem grows_at (st : St) (t : Rat) (h : st.clock ≤ t) : Grows st (st.at t) := grows_same _ _ rfl rfl rfl h
 
 theorem replyEv_plain (m : Nat) (r : Json) : (replyEv m r).enteredName = none ∧ (replyEv m r).isExec = false := by
   unfold replyEv
@@ -109,16 +139,27 @@ theorem replyEv_isReply (m : Nat) (r : Json) : (replyEv m r).isReply = true := b
   repeat' split
   all_goals rfl
 
-theorem grows_taskCall (st : St) (counts : List ((Str × Json) × Nat)) (res : Str) (p r : Json) (m : Nat) :
-    Grows st (st.taskCall counts res p r m) :=
-  ⟨[replyEv m r, .lambdaScheduled p res], rfl,
+theorem taskEv_plain (m : Nat) (r : Json) (b : Bool) :
+    (taskEv m r b).enteredName = none ∧ (taskEv m r b).isExec = false ∧ (taskEv m r b).isReply = true := by
+  unfold taskEv
+  split
+  · exact ⟨rfl, rfl, rfl⟩
+  · exact ⟨(replyEv_plain m r).1, (replyEv_plain m r).2, replyEv_isReply m r⟩
+
+/-- one task invocation: the request now, the outcome's event (a reply kind) at the later instant -/
+theorem grows_taskCall (st : St) (counts : List ((Str × Json) × Nat)) (res : Str) (p : Json) (ev : Ev) (tEnd : Rat)
+    (hn : ev.enteredName = none) (hx : ev.isExec = false) (hr : ev.isReply = true) :
+    Grows st (st.taskCall counts res p ev tEnd) :=
+  ⟨[ev, .lambdaScheduled p res], [rmax st.clock tEnd, st.clock], rfl,
    by
-     have h1 := (replyEv_plain m r).1
      have h2 : (Ev.lambdaScheduled p res).enteredName = none := rfl
-     simp only [enteredNames, List.filterMap_cons, h1, h2, List.filterMap_nil, List.nil_append]
+     simp only [enteredNames, List.filterMap_cons, hn, h2, List.filterMap_nil, List.nil_append]
      rfl,
-   by intro e he; simp at he; rcases he with h | h <;> subst h <;> first | exact (replyEv_plain m r).2 | rfl,
-   by rw [bracketed, replyEv_isReply]; rfl⟩
+   by intro e he; simp at he; rcases he with h | h <;> subst h <;> first | exact hx | rfl,
+   by rw [bracketed, hr]; rfl,
+   rfl, rfl,
+   by intro t ht; simp at ht; rcases ht with h | h <;> subst h <;> first | exact le_rmax_left _ _ | exact Rat.le_refl,
+   le_rmax_left _ _⟩
 
 /-! right extensions: the shapes the interpreter builds states with -/
 
@@ -130,6 +171,14 @@ theorem Grows.enter {a b : St} (h : Grows a b) (ty name : Str) (d : Json) (r : N
 
 theorem Grows.push {a b : St} (h : Grows a b) (e : Ev) (hn : e.enteredName = none) (hx : e.isExec = false)
     (hr : e.isReply = false) : Grows a (b.push e) := h.trans (grows_push _ _ hn hx hr)
+
+theorem Grows.waitUntil {a b : St} (h : Grows a b) (t : Rat) : Grows a (b.waitUntil t) :=
+  h.trans (grows_waitUntil _ _)
+
+/-- the clock set to an instant that is not before the one the growth started from -/
+theorem Grows.at {a b : St} (h : Grows a b) (t : Rat) (ht : a.clock ≤ t) : Grows a (b.at t) := by
+  obtain ⟨e1, s1, l1, t1, x1, b1, m1, n1, g1, _⟩ := h
+  exact ⟨e1, s1, l1, t1, x1, b1, m1, n1, g1, ht⟩
 
 theorem Grows.fanFailedIf {a b : St} (h : Grows a b) (state : Json) : Grows a (b.fanFailedIf state) := by
   unfold St.fanFailedIf
@@ -143,13 +192,29 @@ theorem Grows.iterEnd {a b : St} (h : Grows a b) (name : Str) (i : Nat) (r : Res
   · exact h.push _ rfl rfl rfl
   · exact h
 
-theorem Grows.taskCall {a b : St} (h : Grows a b) (counts : List ((Str × Json) × Nat)) (res : Str) (p r : Json) (m : Nat) :
-    Grows a (b.taskCall counts res p r m) := by
-  exact h.trans (grows_taskCall _ _ _ _ _ _)
+theorem Grows.taskCall {a b : St} (h : Grows a b) (counts : List ((Str × Json) × Nat)) (res : Str) (p r : Json)
+    (m : Nat) (to : Bool) (tEnd : Rat) :
+    Grows a (b.taskCall counts res p (taskEv m r to) tEnd) :=
+  h.trans (grows_taskCall _ _ _ _ _ _ (taskEv_plain m r to).1 (taskEv_plain m r to).2.1 (taskEv_plain m r to).2.2)
 
-theorem Grows.fanFail {a b : St} (h : Grows a b) : Grows a { b with fanFail := true } := h.trans (grows_same _ _ rfl rfl)
+theorem Grows.fanFail {a b : St} (h : Grows a b) : Grows a { b with fanFail := true } :=
+  h.trans (grows_same _ _ rfl rfl rfl Rat.le_refl)
 theorem Grows.multiFail {a b : St} (h : Grows a b) : Grows a { b with multiFail := true } :=
-  h.trans (grows_same _ _ rfl rfl)
+  h.trans (grows_same _ _ rfl rfl rfl Rat.le_refl)
+
+/-- the join of a branch with the later ones: the result's state grows from `a` if the later ones' state does
+and the instants involved are not before `a`'s -/
+theorem Grows.combine {a st2 : St} (h : Grows a st2) (r : Res) (t1 : Rat) (rest : Except Res (List Json)) (tOk : Rat)
+    (h1 : a.clock ≤ t1) (hOk : a.clock ≤ tOk) : Grows a (fanCombine r t1 rest st2 tOk).2 := by
+  unfold Asl.fanCombine
+  repeat' split
+  all_goals first
+    | exact h
+    | exact h.at _ h1
+    | exact h.at _ hOk
+    | exact h.multiFail
+    | exact (h.at _ h1).trans (grows_same _ _ rfl rfl rfl Rat.le_refl)
+    | exact h.trans (grows_same _ _ rfl rfl rfl Rat.le_refl)
 
 /-- the seven functions at fuel `n` -/
 structure GrowsAll (env : Env) (n : Nat) : Prop where
@@ -160,7 +225,7 @@ structure GrowsAll (env : Env) (n : Nat) : Prop where
   joinAndLeave : ∀ states name state data ctx r res st,
     Grows st (joinAndLeave env n states name state data ctx r res st).2
   runBranches : ∀ bs params ctx st, Grows st (runBranches env n bs params ctx st).2
-  runItems : ∀ proc sel input items i ctx st, Grows st (runItems env n proc sel input items i ctx st).2
+  runItems : ∀ proc sel input items i mc be ctx st, Grows st (runItems env n proc sel input items i mc be ctx st).2
 
 theorem growsAll_zero (env : Env) : GrowsAll env 0 := by
   constructor <;> intros <;> simp [runFrom, leave, handleErr, runState, joinAndLeave, runBranches, runItems] <;>
@@ -186,8 +251,8 @@ theorem GrowsAll.thenJoin {a b : St} (h : Grows a b) (states : Json) (name : Str
 theorem GrowsAll.thenBranches {a b : St} (h : Grows a b) (bs : List Json) (params ctx : Json) :
     Grows a (Asl.runBranches env n bs params ctx b).2 := h.trans (ih.runBranches _ _ _ _)
 theorem GrowsAll.thenItems {a b : St} (h : Grows a b) (proc : Json) (sel : Option Json) (input : Json)
-    (items : List Json) (i : Nat) (ctx : Json) :
-    Grows a (Asl.runItems env n proc sel input items i ctx b).2 := h.trans (ih.runItems _ _ _ _ _ _ _)
+    (items : List Json) (i mc : Nat) (be : Rat) (ctx : Json) :
+    Grows a (Asl.runItems env n proc sel input items i mc be ctx b).2 := h.trans (ih.runItems _ _ _ _ _ _ _ _ _)
 
 set_option hygiene false in
 local macro "grow_step" : tactic => `(tactic|
@@ -204,6 +269,7 @@ local macro "grow_step" : tactic => `(tactic|
     | apply Grows.exit
     | apply Grows.enter
     | apply Grows.fanFailedIf
+    | apply Grows.waitUntil
     | apply Grows.iterEnd
     | apply Grows.taskCall
     | apply Grows.fanFail
@@ -272,41 +338,48 @@ theorem grows_runBranches_step (bs : List Json) (params ctx : Json) (st : St) :
       cases hr : runFrom env n states start params ctx 0 st with
       | mk r1 s1 =>
         rw [hr] at g1
-        have g2 := ih.runBranches bs params ctx s1
-        cases hrest : runBranches env n bs params ctx s1 with
+        have g1' : Grows st (s1.at st.clock) := g1.at _ Rat.le_refl
+        have g2 := ih.runBranches bs params ctx (s1.at st.clock)
+        cases hrest : runBranches env n bs params ctx (s1.at st.clock) with
         | mk rest s2 =>
           rw [hrest] at g2
-          have g := g1.trans g2
-          simp only
-          split <;> first | exact g | exact g.multiFail
+          have g := g1'.trans g2
+          exact g.combine _ _ _ _ g1.clock_le (Rat.le_trans g1.clock_le (le_rmax_left _ _))
     · exact Grows.refl _
 
-theorem grows_runItems_step (proc : Json) (sel : Option Json) (input : Json) (items : List Json) (i : Nat)
-    (ctx : Json) (st : St) :
-    Grows st (runItems env (n + 1) proc sel input items i ctx st).2 := by
+theorem grows_runItems_step (proc : Json) (sel : Option Json) (input : Json) (items : List Json) (i mc : Nat)
+    (be : Rat) (ctx : Json) (st : St) :
+    Grows st (runItems env (n + 1) proc sel input items i mc be ctx st).2 := by
   cases items with
-  | nil => simp only [runItems]; exact Grows.refl _
+  | nil => simp only [runItems]; exact grows_waitUntil _ _
   | cons item items =>
     simp only [runItems]
+    have g00 : Grows st (if mc ≠ 0 ∧ i ≠ 0 ∧ i % mc = 0 then st.waitUntil be else st) := by
+      split
+      · exact grows_waitUntil _ _
+      · exact Grows.refl _
+    generalize (if mc ≠ 0 ∧ i ≠ 0 ∧ i % mc = 0 then st.waitUntil be else st) = st0 at g00 ⊢
     split
-    · exact (Grows.refl _).multiFail
+    · exact g00.trans (grows_same _ _ rfl rfl rfl Rat.le_refl)
     · rename_i params hp
       split
       · rename_i start states hs hst
-        have g0 : Grows st (st.push (.iterStarted (ctxStateName ctx) i)) := (Grows.refl _).push _ rfl rfl rfl
-        have g1 := g0.trans (ih.runFrom states start params ctx 0 (st.push (.iterStarted (ctxStateName ctx) i)))
-        cases hr : runFrom env n states start params ctx 0 (st.push (.iterStarted (ctxStateName ctx) i)) with
+        have g0 : Grows st0 (st0.push (.iterStarted (ctxStateName ctx) i)) := (Grows.refl _).push _ rfl rfl rfl
+        have g1 := g0.trans (ih.runFrom states start params ctx 0 (st0.push (.iterStarted (ctxStateName ctx) i)))
+        cases hr : runFrom env n states start params ctx 0 (st0.push (.iterStarted (ctxStateName ctx) i)) with
         | mk r1 s1 =>
           rw [hr] at g1
-          have g1' := g1.iterEnd (ctxStateName ctx) i r1
-          have g2 := ih.runItems proc sel input items (i + 1) ctx (s1.iterEnd (ctxStateName ctx) i r1)
-          cases hrest : runItems env n proc sel input items (i + 1) ctx (s1.iterEnd (ctxStateName ctx) i r1) with
+          have g1' : Grows st0 ((s1.iterEnd (ctxStateName ctx) i r1).at st0.clock) :=
+            (g1.iterEnd (ctxStateName ctx) i r1).at _ Rat.le_refl
+          have g2 := ih.runItems proc sel input items (i + 1) mc (rmax be s1.clock) ctx
+            ((s1.iterEnd (ctxStateName ctx) i r1).at st0.clock)
+          cases hrest : runItems env n proc sel input items (i + 1) mc (rmax be s1.clock) ctx
+              ((s1.iterEnd (ctxStateName ctx) i r1).at st0.clock) with
           | mk rest s2 =>
             rw [hrest] at g2
             have g := g1'.trans g2
-            simp only
-            split <;> first | exact g | exact g.multiFail
-      · exact Grows.refl _
+            exact g00.trans (g.combine _ _ _ _ g1.clock_le g.clock_le)
+      · exact g00
 
 end step
 
